@@ -3,7 +3,7 @@
 //!   polyhedron_feature : pts idx dir(unit) -> local_support_feature
 //!   polyhedron_featid  : pts idx dir(unit) -> support_feature_id_toward + feature_normal of that id
 //!   poly_sincos        : (no args)         -> (PI/180).sin_cos()
-//!   cso_<s1>_<s2>_<local|toward> : args1 args2 iso dir -> CSOPoint::from_shapes / from_shapes_toward (point orig1 orig2)
+//!   cso_<local|toward> : name1 name2 args1 args2 iso dir -> CSOPoint::from_shapes / from_shapes_toward (point orig1 orig2)
 use crate::util::*;
 use crate::p3::na::Unit;
 use crate::p3::shape as s3;
@@ -55,18 +55,15 @@ pub fn exec(func: &str, a: &mut Args) -> Option<String> {
             let t = match id { s3::FeatureId::Vertex(c) => format!("v{}", c), s3::FeatureId::Edge(c) => format!("e{}", c),
                                s3::FeatureId::Face(c) => format!("f{}", c), _ => "u".into() };
             format!("{} {}", t, n) }
-        _ => {
-            let parts: Vec<&str> = func.split('_').collect();
-            if parts.len() != 4 || parts[0] != "cso" { return None; }
-            let g1 = shape(parts[1], a)?; let g2 = shape(parts[2], a)?;
+        "cso_local" | "cso_toward" => {
+            let n1 = a.tok(); let n2 = a.tok();
+            let g1 = shape(n1, a)?; let g2 = shape(n2, a)?;
             let m = d3::iso(a); let d = d3::v(a);
-            let c = match parts[3] {
-                "local" => CSOPoint::from_shapes(&m, &*g1, &*g2, &d),
-                "toward" => CSOPoint::from_shapes_toward(&m, &*g1, &*g2, &Unit::new_unchecked(d)),
-                _ => return None,
-            };
+            let c = if func == "cso_local" { CSOPoint::from_shapes(&m, &*g1, &*g2, &d) }
+                    else { CSOPoint::from_shapes_toward(&m, &*g1, &*g2, &Unit::new_unchecked(d)) };
             format!("{} {} {}", d3::fp(&c.point), d3::fp(&c.orig1), d3::fp(&c.orig2))
         }
+        _ => return None,
     })
 }
 
@@ -210,7 +207,7 @@ pub fn gen(r: &mut Rng, it: usize, lat: bool, v: &mut Vec<(String, String)>) {
         let sa = format!("{} {}", gen_shape(r, lat, n1), gen_shape(r, lat, n2));
         let m = d3::gen_iso(r, lat, 100.0);
         let d = match k { 0 => super::gen_dir3(r, lat), 1 => super::gen_dir3(r, lat) * super::tiny_scale(it), _ => super::gen_dir3(r, !lat) };
-        v.push((format!("cso_{}_{}_local", n1, n2), format!("{} {} {}", sa, d3::hiso(&m), d3::hv(&d))));
-        v.push((format!("cso_{}_{}_toward", n1, n2), format!("{} {} {}", sa, d3::hiso(&m), d3::hv(&super::gen_unit3(r, lat)))));
+        v.push(("cso_local".into(), format!("{} {} {} {} {}", n1, n2, sa, d3::hiso(&m), d3::hv(&d))));
+        v.push(("cso_toward".into(), format!("{} {} {} {} {}", n1, n2, sa, d3::hiso(&m), d3::hv(&super::gen_unit3(r, lat)))));
     }
 }
